@@ -45,6 +45,12 @@ CHECKS = {
  "C16": dict(cat="fault_enumeration", ref="DESIGN.md 4/C16", tech="exhaustive corruption enumeration (all single-bit flips, all 2..8-bit bursts, all truncations) of small emitted streams plus property-based random bytes and CRC-repaired structure-aware mutations, panic and same-audio oracles",
    text="On 8 (thorough: 24 + generated) small emitted streams every single-bit flip and every burst of 2..=8 bits at every bit position and truncation at every byte are parsed: parser::stream must never unwind, and an accepted mutant whose altered bits lie inside one frame must decode to the original audio. Random byte strings and structure-aware frame mutations with CRC-8/CRC-16 recomputed (so the code behind the checksums is reached) are judged by the panic oracle for parsing and for decoding what the parser accepted.",
    note="A CRC-16 collision for a boundary-moving mutation is possible in principle (none observed); decoding of parser-accepted mutants is included because the property's anchors name decode.rs arithmetic on parsed values."),
+ "C10": dict(cat="exploration", ref="DESIGN.md 4/C10", tech="model-based property testing over generated call histories: every call on a long-lived thread is compared with the same call made alone on a freshly spawned thread",
+   text="Generated histories of 2..=7 (thorough: up to 12) operations {stream encode+write, frame-level encode with per-frame writes to the word-backed sink, precompute_bitstream+write, encode+write+parse+decode+re-serialise, multi-thread encode} with generated valid configurations and inputs run on one long-lived thread; block sizes come from a small per-history pool so that steps shrink and grow buffers as well as change channels, widths, LPC order, Rice limits and window parameters at a fixed size; window parameters come from a pool with near-collisions far below 2^-16. Oracle: the observable bytes of every operation equal those of the same operation executed alone on a fresh thread. A second family probes pairs of calls that differ only in the window parameter.",
+   note="Assumes a fresh OS thread has pristine thread-local scratch storage (the library keeps its reusable buffers in thread_local! cells only). Sampling of the history space."),
+ "C14": dict(cat="exploration", ref="DESIGN.md 4/C14", tech="property-based differential testing of integer versus packed-byte delivery at stream level and over generated fill histories on one FrameBuf/Context, with a verbatim-dump decode as content oracle",
+   text="(a) Generated (config, input) with 1..=8 channels and 1..=3 bytes per sample are encoded from an integer-fill source, a byte-fill source and MemSource in single-thread, multi-thread and frame-level mode; the streams must be byte-identical. (b) Generated fill histories (2..=6 fills, lengths capacity / 1..capacity / 0 / 1 / capacity-d) deliver the same blocks as integers to one FrameBuf and as packed little-endian bytes (native width or 4 bytes per sample) to another; after every fill filled_size, the Context (MD5, sample count, frame number) and the frames encoded from both buffers and from a brand-new buffer must agree, and a verbatim-only frame must decode (reference decoder) to exactly the delivered block.",
+   note="Source contract assumed: full blocks except the last, one fill call per read; byte fills into a Context use the Context's own byte width (mismatches are property C17)."),
 }
 
 NOT_YET = {}
